@@ -158,6 +158,8 @@ struct Runner<'a> {
     saved: Option<HashMap<String, String>>,
     known: BTreeSet<String>,
     fails: Vec<String>,
+    /// what the field currently presents (environment)
+    field: Vec<u8>,
 }
 
 impl<'a> Runner<'a> {
@@ -183,6 +185,19 @@ impl<'a> Runner<'a> {
         Ok(d)
     }
 
+    /// What start-up does after the build: size the images, register the driver; the field keeps
+    /// presenting what it presented.
+    fn attach_driver(&mut self, k: usize) -> Result<(), String> {
+        if let Some((ni, nq, nm)) = self.exec.case.driver {
+            self.op(k, Op::Driver(ni, nq, nm))?;
+            if !self.field.is_empty() {
+                let f = self.field.clone();
+                self.op(k, Op::Field(f))?;
+            }
+        }
+        Ok(())
+    }
+
     fn known(&mut self, sig: &str, detail: String) {
         if self.known.insert(sig.to_string()) {
             self.out.line(format!("#o known {sig} case={} {detail}", self.n));
@@ -197,9 +212,16 @@ impl<'a> Runner<'a> {
     }
 
     /// Clauses "time, fault latch, cycle counter, frames, task state reset" after any restart.
-    fn check_resets(&mut self, d: &Dump, mode: Mode) {
+    fn check_resets(&mut self, pre: &Dump, d: &Dump, mode: Mode) {
         if mode == Mode::Cold && (d.i != "-" || d.q != "-" || d.m != "-") {
             self.fail("cold-images", format!("I={} Q={} M={} after restart(Cold)", d.i, d.q, d.m));
+        }
+        if (d.li, d.lq, d.lm) != (pre.li, pre.lq, pre.lm) {
+            // the image is sized once at start-up; drivers deliver as many bytes as it is long
+            self.fail(
+                "image-lengths",
+                format!("lengths {:?} before, {:?} after the restart", (pre.li, pre.lq, pre.lm), (d.li, d.lq, d.lm)),
+            );
         }
         if d.res != "ok" {
             self.fail("restart-error", d.res.clone());
@@ -374,6 +396,14 @@ impl<'a> Runner<'a> {
         if a.dead != b.dead {
             diff.push("dead");
         }
+        if self.exec.case.driver.is_some() {
+            if (a.li, a.lq, a.lm) != (b.li, b.lq, b.lm) {
+                diff.push("lengths");
+            }
+            if (a.di, a.dq) != (b.di, b.dq) {
+                diff.push("driver");
+            }
+        }
         if a.acc != b.acc {
             diff.push("access");
         }
@@ -422,6 +452,7 @@ impl<'a> Runner<'a> {
         }
         let d0 = self.last[0].clone().unwrap();
         self.op(1, Op::Build)?;
+        self.attach_driver(1)?;
         if self.store.is_some() {
             self.op(1, Op::Store(false))?;
         }
@@ -487,13 +518,21 @@ impl<'a> Runner<'a> {
             Step::EnvW(w) => {
                 self.op(0, Op::EnvW(*w))?;
             }
+            Step::Field(bytes) => {
+                self.field = bytes.clone();
+                self.op(0, Op::Field(bytes.clone()))?;
+                if self.twin.is_some() {
+                    self.op(1, Op::Field(bytes.clone()))?;
+                    self.compare_twin("field");
+                }
+            }
             Step::Restart(m) | Step::Rwr(m) => {
                 let with_load = matches!(step, Step::Rwr(_));
                 self.twin = None;
                 let pre = self.last[0].clone().unwrap();
                 let post = self.op(0, Op::Restart(*m))?;
                 self.out.count(if *m == Mode::Warm { "restart_warm" } else { "restart_cold" });
-                self.check_resets(&post, *m);
+                self.check_resets(&pre, &post, *m);
                 match m {
                     Mode::Warm => self.check_warm(&pre, &post),
                     Mode::Cold => self.check_cold_vars(&post),
@@ -512,11 +551,13 @@ impl<'a> Runner<'a> {
             Step::Power(restart) => {
                 self.twin = None;
                 self.op(0, Op::Build)?;
+                self.attach_driver(0)?;
                 let auto = self.store.unwrap_or(false);
                 self.op(0, Op::Store(auto))?;
                 if let Some(m) = restart {
+                    let before = self.last[0].clone().unwrap();
                     let d = self.op(0, Op::Restart(*m))?;
-                    self.check_resets(&d, *m);
+                    self.check_resets(&before, &d, *m);
                 }
                 let post = self.op(0, Op::Load)?;
                 self.out.count("power_cycles");
@@ -564,8 +605,10 @@ fn run_case(n: u64, case: &Case, profile: &str, out: &mut Out, tmp: &std::path::
         saved: None,
         known: BTreeSet::new(),
         fails: Vec::new(),
+        field: Vec::new(),
     };
     let d0 = r.op(0, Op::Build)?;
+    r.attach_driver(0)?;
     if case.store_starts_unwritable {
         r.op(0, Op::EnvW(false))?;
     }
